@@ -11,7 +11,7 @@ for f in os.listdir(f"{src}/demo"):
     p = f"{src}/demo/{f}"
     if os.path.isfile(p) and os.path.getsize(p) < 200_000: shutil.copy(p, f"{dst}/demo/{f}")
 if os.path.exists(f"{src}/README.md"): shutil.copy(f"{src}/README.md", f"{dst}/README.md")
-ver = [l for l in open("/verif/work/seed_verify.log") if l.startswith(ID + ":")]
+ver = [l for l in open(os.environ.get("SEED_LOG", "/verif/work/seed_verify.log")) if l.startswith(ID + ":") or l.startswith(ID + "(")]
 meta = {
   "property": ID, "origin": "fresh sub-agent given only the property text and a scratch worktree of /repo",
   "needs_to_manifest": needs,
